@@ -55,7 +55,10 @@ func composedKind(k simapi.ObjKey) bool {
 func (prop) Run(t *testing.T, s *sim.Sim, res *runner.Result) {
 	var fn *simfn.Transport
 	xrworld.Run(s, res, xrworld.Hooks{
-		Opts:   func(t *sim.Tape) xrworld.Opts { lag := t.Next(2) == 1; return xrworld.Opts{FnFaults: true, LagComposed: lag, LagManual: lag && t.Next(2) == 1} },
+		Opts: func(t *sim.Tape) xrworld.Opts {
+			lag := t.Next(2) == 1
+			return xrworld.Opts{FnFaults: true, LagComposed: lag, LagManual: lag && t.Next(2) == 1}
+		},
 		Params: xrworld.DrawParams{Fatal: true, Requirements: true, Anonymous: true},
 		Faults: []sim.Outcome{sim.ErrBefore, sim.ErrAfter, sim.Conflict, sim.Stale},
 		Setup: func(w *xrworld.W, wl *xrworld.Workload) error {
@@ -314,7 +317,23 @@ func judge(w *xrworld.W, fn *simfn.Transport, key types.NamespacedName, t *sim.T
 			success = synced(e.After)
 		}
 	}
-	if success && desired != nil && failure == "" {
+	// P&T: while a composed resource still lacks its template's name (it was
+	// composed from an anonymous template and the composition has just been
+	// migrated to named ones) the composer associates resources and templates by
+	// position and does not garbage collect in that reconcile
+	byOrder := false
+	if !pipeline {
+		for _, e := range mine {
+			if e.Read && e.Verb == "get" && composedKind(e.Key) && e.After != nil && e.Err == nil &&
+				(&unstructured.Unstructured{Object: e.After}).GetAnnotations()["crossplane.io/composition-resource-name"] == "" {
+				byOrder = true
+			}
+		}
+	}
+	if byOrder {
+		w.S.Probe("associated-by-order")
+	}
+	if success && desired != nil && failure == "" && !byOrder {
 		w.S.Probe("successful-compose")
 		var missing []string
 		for _, r := range refObjs(xrStart) {
